@@ -30,7 +30,7 @@ package security
 //@   nopanic[C10]
 
 //@ func CheckSession$1
-//@   requires[C10] wf: *next != nil && hasId(ctx)
+//@   requires[C10] wf: next != nil && *next != nil && hasId(ctx)
 //@   assigns #hostOK, #hostChecked
 //@   ensures[C03,C04] iff: result0 == (hasTunnel(ctx) && ctxTunnel(ctx).TargetServer == host && (!VerifyClientIP || box(ctxTunnel(ctx).RemoteAddr) == ctxId(ctx).attributes["clientIp"]) && #hostOK)
 //@   ensures[C03] policy: result0 ==> #hostOK && #hostChecked == host
